@@ -54,7 +54,7 @@ func (e *c10Encoder) PrintLeadingContent(_ io.Writer, content string) error {
 }
 func (e *c10Encoder) CanHandleAliases() bool { return true }
 
-var c10Exprs = []string{".", ".[]", "select(.[0] == 7770003)", ".[] | select(. == 7770003)", "[document_index, file_index, filename]", "length", "sort", ".[0]",
+var c10Exprs = []string{".", ".[]", "select(.[0] == 7770003)", ".[] | select(. == 7770003)", "[document_index, file_index, filename]", "length", "sort", ".[0]", "\"lit\"", "5", ".[7] // \"d\"",
 	// values built below the document root still belong to their document and file
 	".[] | {\"v\": .}", "{\"first\": .[0]}", ".[] | {\"v\": .} | .v"}
 
@@ -364,7 +364,9 @@ func VerifC10Origin() {
 		".[] | select(. == 1)", ".[1:] | .[]", "{\"m\": .} | .m[]", "map({\"v\": .}) | .[]", ".[] | {\"v\": .} | select(.v == 1)", "{\"a\": .[0]} * {\"b\": .[1]}", "{\"a\": .[0]} + {\"b\": .[1]}",
 		"keys", "keys | .[]", "to_entries", "to_entries | .[]", "[.[0]]", "[.[]] | .[]", "length", "reverse", "reverse | .[]", "sort | .[0]", "unique", "flatten", ". + [5]", ". + [5] | .[]", ". - [1]",
 		"map(. + 1)", "map(. + 1) | .[]", "{\"m\": .} | to_entries | .[] | .value", "with_entries(.)", "{\"a\": 1} | keys", "any", ".[0] + 1", ".[0] == 1", ".[0] // 5", "[.[] | select(. == 1)]",
-		"group_by(.) | .[]", "(.[0] | tostring)", "path", ".[0] | path", "{\"a\": .[0]} | pick([\"a\"])", "{\"a\": .[0]} | omit([\"b\"])", "{\"a\": .[0]} | to_entries | from_entries"}
+		"group_by(.) | .[]", "(.[0] | tostring)", "path", ".[0] | path", "{\"a\": .[0]} | pick([\"a\"])", "{\"a\": .[0]} | omit([\"b\"])", "{\"a\": .[0]} | to_entries | from_entries",
+		// literals and what is computed from them only: evaluated for a document, they are results of that document
+		"5", "\"x\"", "true", "null", ".[7] // \"d\"", "\"v\\(.[0])\"", "[1, 2]", "{\"k\": 1}", "1 + 2", ".[] | \"s\"", "[\"a\", \"b\"] | .[]", "5 as $x | $x"}
 	which := verifChoice("expr", len(exprs))
 	d, f := verifChoice("doc", 3), verifChoice("file", 3)
 	names := []string{"f0.yml", "dir/f1.yml", "f2.yaml"}
